@@ -117,7 +117,7 @@ class Emitter:
 
     def struct(self, name, fields):
         lines = []
-        self.last_leaf_line = -1
+        last_leaf_line = -1
         for f in fields:
             if f[0] == "leaf":
                 tag = ' `parquet:"%s"`' % f[3] if f[3] else ""
@@ -126,7 +126,7 @@ class Emitter:
                     # another key in front of the parquet key, as structs shared with encoding/json have
                     tag = ' `json:"%s,omitempty" parquet:"%s"`' % (f[2].lower(), f[3])
                 lines.append("\t%s %s%s%s" % (f[2], REP_PREFIX[f[1]], f[4], tag))
-                self.last_leaf_line = len(lines) - 1
+                last_leaf_line = len(lines) - 1
             elif f[0] == "group":
                 tn = "T" + f[3]
                 self.struct(tn, f[2])
@@ -151,7 +151,7 @@ class Emitter:
             elif f[0] == "excluded" and f[1] == "joined":
                 # an unexported name added to the previous leaf's declaration:  N3, x7 int32 `parquet:"n3"`
                 self.nx += 1
-                if lines and self.last_leaf_line == len(lines) - 1:
+                if lines and last_leaf_line == len(lines) - 1:
                     # the declaration may already name several fields (N3, x7): add the new name after the last one
                     m = re.match(r"^\t((?:\w+, )*\w+) (.*)$", lines[-1])
                     lines[-1] = "\t%s, x%d %s" % (m.group(1), self.nx, m.group(2))
